@@ -871,8 +871,11 @@ func poolConf(tier string) (p pool) {
 		p.dd = append(p.dd, confSc("remove-last-voter", f, seq(camp(1), conf(1, mRemove3), prop(1), conf(1, mV1Remove2), prop(1), conf(1, mRemove1), prop(1), conf(1, mAddVoter4), prop(1)), k, defaultFaults...))
 	}
 	// validation of conf-change proposals disabled; the application itself proposes one change at a time
+	// (only scripts whose changes stay individually applicable when they pile up: with validation off
+	// the joint script would have raft apply an enter-joint change to a configuration that is already
+	// joint – the application's fault – and a joint configuration has no no-op change to cancel with)
 	p.dd = append(p.dd, confSc("simple-conf", feat{noccv: true}, scriptSimpleConf(), k, defaultFaults...),
-		confSc("joint", feat{noccv: true, async: true}, scriptJoint(), k, defaultFaults...))
+		confSc("simple-conf", feat{noccv: true, async: true}, scriptSimpleConf(), k, defaultFaults...))
 	p.dd = append(p.dd, removeLowersQuorumSc(k, defaultFaults...))
 	for _, f := range []feat{syncF, asyncF} {
 		p.dd = append(p.dd, replaceTwoSc(f, k, defaultFaults...))
